@@ -443,3 +443,25 @@ Example C03_ex_structure :
   h_stack NatOps exA exA = Some (mkdm 2 6 [1; 4; 2; 5; 3; 6; 1; 4; 2; 5; 3; 6]) /\ h_stack NatOps exA exB = None /\
   from_vec NatOps 2 3 [1; 2; 3; 4; 5; 6] = Some exA /\ from_vec NatOps 2 3 [1; 2; 3] = None.
 Proof. repeat split; reflexivity. Qed.
+
+(* ================= further operations ================= *)
+
+(* add/sub/mul/div_element_mut update exactly one cell of the view *)
+Theorem C03_element_update : forall (T : Type) (K : Ops T) (f : T -> T) (m : dm T) r c,
+  wf m -> r < nrows m -> c < ncols m ->
+  exists m', upd_element K f m r c = Some m' /\ nrows m' = nrows m /\ ncols m' = ncols m /\ wf m' /\
+    forall r' c', r' < nrows m -> c' < ncols m ->
+      get K m' r' c' = if Nat.eqb r' r && Nat.eqb c' c then f (get K m r c) else get K m r' c'.
+Proof. intros T K. exact (upd_element_spec K). Qed.
+
+(* copy_row_as_vec / copy_col_as_vec into a buffer of the matching length return the row / column *)
+Theorem C03_copy_row_col : forall (T : Type) (K : Ops T) (m : dm T) i (res : list T),
+  (length res = ncols m -> copy_row_as_vec K m i res = get_row K m i) /\
+  (length res = nrows m -> copy_col_as_vec K m i res = get_col K m i).
+Proof. intros T K m i res. split; [exact (copy_row_full K m i res) | exact (copy_col_full K m i res)]. Qed.
+
+(* `==` on equal shapes: entrywise within the machine epsilon on the logical view (over R) *)
+Theorem C03_exact_eq_R : forall (a b : dm R) (eps : R), wf a -> wf b -> nrows a = nrows b -> ncols a = ncols b ->
+  (eq_dm ROps eps a b = true <->
+   forall r c, r < nrows a -> c < ncols a -> (Rabs (get ROps a r c - get ROps b r c) <= eps)%R).
+Proof. exact eq_dm_R. Qed.
